@@ -467,6 +467,7 @@ func c20Count(c *Ctx) *RuleResult {
 			}
 			construct := constructOf(u, fn.Name()+" delta")
 			used := false
+			condNote := ""
 			// directly: X.lockCount += call   or   d, _ := call ... X.lockCount += d
 			for _, anc := range pathTo(u.Decl.Body, call) {
 				if as, ok := anc.(*ast.AssignStmt); ok {
@@ -477,6 +478,13 @@ func c20Count(c *Ctx) *RuleResult {
 						ast.Inspect(u.Decl.Body, func(m ast.Node) bool {
 							if o, ok := m.(*ast.AssignStmt); ok && o.Tok == token.ADD_ASSIGN && strings.HasSuffix(exprStr(o.Lhs[0]), ".lockCount") && exprStr(o.Rhs[0]) == dv {
 								used = true
+								// ... for every value of the delta: a merge of adjacent ranges is negative, a split positive
+								for _, gd := range flattenGuards(GuardsOf(info, u.Decl.Body, o)) {
+									if mentionsIdent(gd.Cond, dv) {
+										used = false
+										condNote = " (the addition only happens when " + gd.String() + ")"
+									}
+								}
 							}
 							return true
 						})
@@ -529,7 +537,7 @@ func c20Count(c *Ctx) *RuleResult {
 			if used {
 				r.ok(construct, posOf(p, call), "added to lockCount")
 			} else {
-				r.bad(c.Prop, construct, posOf(p, call), "the change in the number of held lock entries is not added to lockCount: 'owner still holds locks' becomes wrong (locks leak or RELEASE_LOCKOWNER/FREE_STATEID is refused forever)")
+				r.bad(c.Prop, construct, posOf(p, call), "the change in the number of held lock entries is not added to lockCount"+condNote+": 'owner still holds locks' becomes wrong (locks leak or RELEASE_LOCKOWNER/FREE_STATEID is refused forever)")
 			}
 			return true
 		})
@@ -697,6 +705,6 @@ func init() {
 		Level: "other",
 		Explanation: "Structural necessary conditions of POSIX record-lock semantics: the complete decision table of the conflict test (all 2*3*3*3*3*3 orderings of its six comparisons); Set with a locking type only after Test of the same lock under one locksLock section, unlocks span the documented whole-file range; owner identity (every owner handed to the lock table is the address of the per-owner state object, created objects are registered, no never-populated owner map); returned count deltas reach lockCount and asserting removal is gated. The split/merge algorithm of Set versus a per-byte model and offset arithmetic are not decided.",
 		Assumptions: []string{"lock entries stay sorted by start (Set's algorithm, not decided here)"},
-		Rules:       []RuleFunc{c20Test, c20TestThenSet, c20Owner, c20Count, c20Sorted},
+		Rules:       []RuleFunc{c20Test, c20TestThenSet, c20Owner, c20Count, c20Sorted, c18PoolEntry},
 	})
 }
